@@ -316,6 +316,24 @@ def gauss_legendre(n=120, lo=-14.0, hi=14.0):
     return _GL[key]
 
 
+def gauss_legendre_2d():
+    """Rule used per axis when TWO continuous variables are integrated numerically (the grid is its square): 7 panels
+    of width 1 on [-3.5, 3.5], where every Gaussian of the alphabet (|mean| <= 1.5, 0.3 <= stddev <= 1.4, also after
+    squaring / cubing) is narrowest, two panels of width 3 and two of width 4 out to +-10.5; 88 nodes, error < 1e-8 on
+    every such Gaussian (the uniform 72-node rule used before reached only 1.5e-6, which produced false alarms at the
+    1e-6 tolerance for one valuation seed)."""
+    key = ("2d",)
+    if key not in _GL:
+        t, w = np.polynomial.legendre.leggauss(8)
+        edges = np.concatenate([[-10.5, -6.5], np.linspace(-3.5, 3.5, 8), [6.5, 10.5]])
+        xs, ws = [], []
+        for a, b in zip(edges[:-1], edges[1:]):
+            xs.append(0.5 * (b - a) * t + 0.5 * (b + a))
+            ws.append(0.5 * (b - a) * w)
+        _GL[key] = (np.concatenate(xs), np.concatenate(ws))
+    return _GL[key]
+
+
 def integrate_ref(sc: Circuit, val, zvars, y: dict, dom=None, gl_nodes=120) -> np.ndarray:
     """Brute-force sum / quadrature of the reference function of sc over the variables zvars at the
     assignment y of the others. Returns (O, K) complex."""
